@@ -16,6 +16,7 @@ import (
 	"sync"
 
 	exec "github.com/sassoftware/relic/v8/zz_verif/simexec"
+	"github.com/sassoftware/relic/v8/zz_verif/simhook"
 )
 
 var prefixes = []string{"NOTIFY_", "LISTEN_", "EINHORN_"}
@@ -213,3 +214,12 @@ func (e *NotifyEnd) Ready(pid int) { e.send("worker:ack", pid) }
 
 // Stopping is the child's "worker:stopping" datagram.
 func (e *NotifyEnd) Stopping(pid int) { e.send("worker:stopping", pid) }
+
+// DaemonStopping is the child's "worker:stopping" notification (the real one
+// writes to the descriptor named by EINHORN_SOCK_FD).
+func DaemonStopping() error {
+	if env := simhook.CurProcEnv(); env != nil {
+		return env.Stopping()
+	}
+	return errors.New("simactivate: not inside a simulated process")
+}
